@@ -3332,6 +3332,7 @@ def _run(ctx):
         "attr() read back through the public API after every operation), stream 'cross' crosses them and is checked for "
         "model = code and unique dictionary keys. A history is distinct by its operation list; non-trivial = at least one "
         "record exists"
+        " ROUND 6, READ-ONLY CALLS: observer-style calls found by introspection on the live objects (repr / str / len / bool / == / hash / copy / every attribute, debug(), get_* / is_* / has_* / match_* without auto-create, the log helpers, on every library object reachable) are interleaved into histories: the same history runs without and with them in fresh objects; each call must leave the deep picture of the objects, their class / module data and the stubs' counters unchanged, every answer, the final state and a final sweep through the whole catalogue (made, and itself checked, at the end of every such history) must be identical, and the model is driven with the history without the calls; reviewed exclusions (calls that advance by design) are listed in harness/ro_calls.py EXCLUDED. "
     )
     ctx.trusted_base += [
         "Lean 4.33 kernel",
